@@ -160,7 +160,7 @@ Lemma plan_inside m size op goff glen wr toff tlen :
   goff <= toff /\ toff + tlen <= goff + glen /\ goff + glen <= size.
 Proof.
   destruct op as [off len|off len|off len w|off t|off t|off t n i|off t n i|off t n k|off t n k|off t|off len
-                  |off cnt sl|off cnt|off len t k|off len t k];
+                  |off cnt sl|off cnt|off len t k|off len t k|off cnt sl|off cnt|off cnt|off cnt];
     cbn [op_plan].
   1,2: destruct (len =? 0); [discriminate|]; destruct (N.leb_spec size off) as [L|L]; [discriminate|];
        intros HH; inv_val; lia.
@@ -204,6 +204,12 @@ Proof.
     destruct (isz_mul (len / t) t) as [nb|] eqn:I; [|discriminate]. apply isz_mul_Some in I. destruct I as [-> I].
     cbn [guard_len]. rewrite pmul_Val by exact I. cbn [bind]. intros HH; inv_val.
     pose proof (N.mul_div_le len t Z) as D. remember (len / t) as q. nia.
+  - destruct (N.ltb_spec size off) as [L|L]; [discriminate|]. intros HH; inv_val. lia.
+  - destruct (end_offset size off cnt) eqn:E; [|discriminate]. apply end_offset_Some in E.
+    destruct (cnt =? 0); [discriminate|]. intros HH; inv_val. lia.
+  - destruct (N.ltb_spec size off) as [L|L]; [discriminate|]. intros HH; inv_val. lia.
+  - destruct (end_offset size off cnt) eqn:E; [|discriminate]. apply end_offset_Some in E.
+    destruct (cnt =? 0); [discriminate|]. intros HH; inv_val. lia.
 Qed.
 
 (* every guarded access of an operation on an on-demand region takes place inside the window that
@@ -237,6 +243,25 @@ Proof.
   rewrite C32 in *.
   split; [exact E2|]. split; [assumption|]. split; [lia|]. split; [lia|]. split; [exact I1|].
   eexists. exact I2.
+Qed.
+
+Lemma zero_len_guard_noop m o g off wr : guarded m o g off 0 wr = ([], Val None).
+Proof. unfold guarded. destruct (on_demand g); reflexivity. Qed.
+
+(* the stream entry points with a DESCRIPTOR as the other end (the transfer is a read(2)/write(2) system call
+   made while the guard lives, io.rs:177-227) take exactly the windows of the buffer forms: read_volatile_from /
+   write_volatile_to those of the &[u8] / Vec forms, the exact/all forms (file long enough, sink taking
+   everything) one window over the whole requested slice - on every region, in both profiles *)
+Lemma fd_streams_same_windows_lemma : forall m o g off count flen,
+  run_op m o g (XReadFromFd off count flen) = run_op m o g (XReadFrom off count flen) /\
+  run_op m o g (XWriteToFd off count) = run_op m o g (XWriteTo off count) /\
+  run_op m o g (XReadExactFromFd off count) = run_op m o g (XSliceGuard off count true) /\
+  run_op m o g (XWriteAllToFd off count) = run_op m o g (XSliceGuard off count false).
+Proof.
+  intros m o g off count flen. unfold run_op. cbn [op_plan].
+  split; [reflexivity|]. split; [reflexivity|].
+  split; (destruct (end_offset (xr_size g) off count); [|reflexivity];
+          destruct (N.eqb_spec count 0) as [Z|Z]; [subst count; rewrite zero_len_guard_noop; reflexivity|reflexivity]).
 Qed.
 
 (* ------------------------------------------------------------------ histories *)
